@@ -100,6 +100,18 @@ func (u *Unit) evalCall(c *ast.CallExpr, env *Env) []Outcome {
 		unsup("call of non-function %s at %s", fv.Ty, u.pos(c.Pos()))
 	}
 	args := u.evalArgs(c, sig, env)
+	if n, isNamed := types.Unalias(fv.Ty).(*types.Named); isNamed && n.Obj().Pkg() != nil && isOpaquePkg(n.Obj().Pkg().Path()) {
+		// a function value of a library function type (e.g. context.CancelFunc): a library call, not a user callback
+		u.D.Trust("calls of library function values (" + n.Obj().Pkg().Name() + "." + n.Obj().Name() + ") are opaque: arbitrary result, no effect on modelled state")
+		var vals []Value
+		for i := 0; i < sig.Results().Len(); i++ {
+			rt := sig.Results().At(i).Type()
+			v := u.D.Fresh("libfnres", u.sortOf(rt))
+			u.typeInvariant(env, v, rt)
+			vals = append(vals, Value{v, rt})
+		}
+		return ret(env, vals...)
+	}
 	return u.applyFn(env, fv.Term, sig, args, c)
 }
 
@@ -424,6 +436,11 @@ func (u *Unit) closure(lit *ast.FuncLit, env *Env) Value {
 	ord, hasOrd := u.lits[lit]
 	li := &litInfo{lit: lit, owner: owner, ord: ord, info: u.Info}
 	u.knownLits[clo.S] = li
+	if hasOrd {
+		// specifications may name the function value created for literal N in this activation: _litN
+		env.alias[fmt.Sprintf("_lit%d", ord)] = clo
+		env.aliasTy[fmt.Sprintf("_lit%d", ord)] = ty
+	}
 	if hasOrd {
 		if blk := u.Prog.Contracts.Get(owner.Key, fmt.Sprintf("lit %d", ord)); blk != nil {
 			blk.Bound = true
@@ -1040,6 +1057,17 @@ func (u *Unit) callByContract(c *ast.CallExpr, fi *FuncInfo, blk *Block, recv *V
 		if g.obj != nil {
 			env.vars[g.obj] = w
 		}
+	}
+	// the caller may name the arguments and results of its latest call of this callee: <Callee>_arg_<param>, <Callee>_r<i>
+	for name, v := range scope {
+		if strings.HasPrefix(name, "r") && len(name) == 2 && name[1] >= '0' && name[1] <= '9' {
+			env.alias[fi.Obj.Name()+"_"+name] = v.Term
+			env.aliasTy[fi.Obj.Name()+"_"+name] = v.Ty
+		}
+	}
+	for name, v := range u.paramScope(fi, recv, args) {
+		env.alias[fi.Obj.Name()+"_arg_"+name] = v.Term
+		env.aliasTy[fi.Obj.Name()+"_arg_"+name] = v.Ty
 	}
 	sc.post = true
 	for _, cl := range blk.Of("ensures") {
